@@ -327,6 +327,16 @@ class LinearSuite:
             i = sorted(bad)[0]
             ctx.broken.append(f"correspondence cms-linear: model and implementation differ on {len(bad)} histories; "
                               f"first case: {self.coq_cases[i][:1500]}")
+        # the end-to-end variant (columns computed by the model's own fasthash64) only means something while the source
+        # computes the columns as fasthash64(key, row) % width with readable hash constants; the properties served by this
+        # suite hold for EVERY row hash, so a changed row hash (C14's business) or hash function (C11's) must not alarm them
+        rh = "for row in range(depth): fasthash64(key, row) % width"
+        consts = getattr(ctx, "consts", None) or {}
+        terr = [k for k in (getattr(ctx, "translator_errors", None) or {}) if "hashes" in k or "rowhash" in k]
+        if self.hash_cases and (terr or consts.get("rowhash_query_linear", rh) != rh):
+            ctx.notes.append("end-to-end cases (columns computed by the model's fasthash64) skipped: the source's row hash / hash "
+                             "constants are not the ones the model's hash_bucket is written for; columns are observed instead")
+            self.hash_cases = []
         if self.hash_cases:
             bad, err = ctx.coq_bad_cases("linhash", "Machine Harness CmsLinear CmsLinearHarness CmsLinearHash",
                                          "check_lin_case_hash", self.hash_cases, shard=15)
